@@ -230,7 +230,7 @@ Local Close Scope out_scope.
 Local Open Scope m_scope.
 
 Definition visit_header (brk : oracle) (s : slice) : M (presult header) :=
-  if s_len s <? 80 then lift (Err MoreBytesNeeded) else
+  if s_len_lt s 80 then lift (Err MoreBytesNeeded) else
   s1 <- lift (s_range s 0 4) ;; version <- lift (expect (read_i32 s1)) ;;
   s2 <- lift (s_range s 68 72) ;; time <- lift (expect (read_u32 s2)) ;;
   s3 <- lift (s_range s 72 76) ;; bits <- lift (expect (read_u32 s3)) ;;
